@@ -29,6 +29,9 @@ def run(ctx: Ctx) -> None:
     n3 = S.names_disjoint(ctx, v, "C08.R3")
     rep.floor("C08.R3", n3, 1)
     S.writer_reader_agree(ctx, v, "C08.R4")
+    rep.rule("C08.R7", "the URI join of the DBFS store removes separator syntax only (never the leading '.' of a name): distinct paths keep distinct locations")
+    n7 = S.uri_join_keeps_names(ctx, "C08.R7")
+    rep.floor("C08.R7", n7, 1)
     rep.rule("C08.R5", "store_blob returns normally only after the commit marker is published (a stored key is reported present)")
     S.store_always_publishes(ctx, v, "C08.R5")
     rep.rule("C08.R6", "committing a path removes / replaces nothing but that path's own entry; the cache wrapper answers path queries from the store")
